@@ -97,7 +97,7 @@ func worker(prop, scID, out string) {
 	}
 	r := lib.NewReport(prop)
 	cfg := sim.Config{Sc: sc, Actions: append([]string{"release", "approve"}, plan.Actions...), MaxUser: plan.MaxUser, Disturbances: plan.Disturbances,
-		MaxDisturb: plan.MaxDisturb, StateCap: plan.StateCap, Monitors: append([]sim.Monitor{sim.ContextTracker{}}, plan.Monitors(w, sc)...), InjectOncePerControlState: true, Verbose: os.Getenv("VERIF_VERBOSE") != ""}
+		MaxDisturb: plan.MaxDisturb, StateCap: plan.StateCap, Monitors: append([]sim.Monitor{sim.ContextTracker{}}, plan.Monitors(w, sc)...), InjectOncePerControlState: true, DisturbOncePerControlState: plan.FaultPointsPerControlState, Verbose: os.Getenv("VERIF_VERBOSE") != ""}
 	budgetS := 150.0
 	if thorough {
 		budgetS = 3000
@@ -106,6 +106,12 @@ func worker(prop, scID, out string) {
 		fmt.Sscanf(v, "%f", &budgetS)
 	}
 	cfg.Deadline = t0.Add(time.Duration(budgetS * float64(time.Second)))
+	// memory budget per worker (the scenarios of one check run in parallel): stop with exhaustive:false rather than
+	// exhaust the machine
+	cfg.MemLimitMB = 3500
+	if v := os.Getenv("VERIF_E1_MEM_MB"); v != "" {
+		fmt.Sscanf(v, "%d", &cfg.MemLimitMB)
+	}
 	ex := sim.NewExplorer(w, cfg, r)
 	if pf := os.Getenv("VERIF_CPUPROFILE"); pf != "" {
 		f, _ := os.Create(pf)
@@ -242,6 +248,11 @@ func parent(prop string) {
 	r.Extra["monitor_antecedents"] = counters
 	r.Extra["deviation_alphabet"] = plan.Actions
 	r.Extra["disturbances"] = plan.Disturbances
+	faultPoints := "every state, every reconcile transition, every call / write index"
+	if plan.FaultPointsPerControlState {
+		faultPoints = "one representative state per abstract control state, transition, fault kind and call / write index"
+	}
+	r.Extra["fault_points"] = faultPoints
 	r.Extra["bounds"] = map[string]interface{}{"user_deviations": plan.MaxUser, "disturbances": plan.MaxDisturb, "state_cap_per_scenario": plan.StateCap,
 		"interleavings_of_R_B_T_D_env_gc_tick": "unbounded (BFS with state matching)", "deviation_points": "one per abstract control state and action"}
 	if len(ids) > 0 {
